@@ -431,9 +431,19 @@ func (m *Machine) tick() (bool, error) {
 		switch v := v.(type) {
 		case machine.Asset:
 			if ok {
-				accBalances[v] = machine.Zero
+				// Saving everything leaves nothing to take. A balance which is
+				// already negative must stay as it is: raising it to zero would
+				// let later sends take funds the account does not have.
+				if balance, tracked := accBalances[v]; !tracked || balance.Gt(machine.Zero) {
+					accBalances[v] = machine.Zero
+				}
 			}
 		case machine.Monetary:
+			if v.Amount.Ltz() {
+				return true, machine.NewErrNegativeAmount(
+					"cannot save a monetary with a negative amount: [%s %s]",
+					string(v.Asset), v.Amount)
+			}
 			if ok {
 				accBalances[v.Asset] = accBalances[v.Asset].Sub(v.Amount)
 			}
